@@ -81,8 +81,21 @@ def call(pool_mode, faults=None, phase_fault=None, kind="ok", limit=6):
         if kind == "no_donor":
             kw.update(label_switching_cost=1e9, min_cluster_size=Tp)
             return fast_ticc.ticc_labels(s.copy(), **kw)
+        if kind == "no_donor_partial":
+            # one donor that can serve two of the three needy clusters, not the third
+            kw.update(label_switching_cost=1e9, min_cluster_size=5, num_clusters=4)
+            short = s[:19].copy()
+            TRACER.init_labels = [0] * 10 + [1] * 3 + [2] * 3 + [3] * 3
+            return fast_ticc.ticc_labels(short, **kw)
         if kind == "list_to_single":
             return fast_ticc.ticc_labels([s.copy(), s.copy()], **kw)
+        if kind == "tuple_to_single":
+            return fast_ticc.ticc_labels((s.copy(), s.copy()), **kw)
+        if kind == "iterator_to_single":
+            return fast_ticc.ticc_labels(iter([s.copy(), s.copy()]), **kw)
+        if kind == "deque_to_single":
+            import collections
+            return fast_ticc.ticc_labels(collections.deque([s.copy(), s.copy()]), **kw)
         if kind == "array_to_joint":
             return fast_ticc.ticc_joint_labels(s.copy(), **kw)
         raise HarnessError(kind)
@@ -189,9 +202,9 @@ def expected(task, msg_text):
     (pool_mode, fault_kind, where, exc_name, call_kind) = task
     if fault_kind in ("task", "phase"):
         return type(EXC[exc_name]("x")), [msg_text]
-    if call_kind == "no_donor":
+    if call_kind in ("no_donor", "no_donor_partial"):
         return RuntimeError, ["donor"]
-    if call_kind == "list_to_single":
+    if call_kind in ("list_to_single", "tuple_to_single", "iterator_to_single", "deque_to_single"):
         return TypeError, ["ticc_joint_labels"]
     if call_kind == "array_to_joint":
         return TypeError, ["ticc_labels"]
@@ -228,7 +241,8 @@ def plan(ctx):
         for ph in ("bic", "ch", "cll"):
             tasks.append((mode, "phase", (0, ph), "InjectedFault", "ok"))
     for mode in ("default", "mpK"):
-        for kind in ("no_donor", "list_to_single", "array_to_joint"):
+        for kind in ("no_donor", "no_donor_partial", "list_to_single", "tuple_to_single", "iterator_to_single",
+                     "deque_to_single", "array_to_joint"):
             tasks.append((mode, "call", None, None, kind))
     return tasks
 
@@ -264,7 +278,7 @@ def run(ctx):
         "fault points: optimisation task (r,k) for every r<3, k<3 x pool mode {default Pool(1), multiprocessing on "
         "with P=K, P=2, virtual} raising ValueError (LinAlgError and a harness-defined class at (1,1); thorough: 3 "
         "more points); phase fault at every (round<3, phase in repop/stats/opt/relabel) and in the three metric "
-        "functions x {default, P=K}; no-donor, list to ticc_labels, array to ticc_joint_labels x {default, P=K}. "
+        "functions x {default, P=K}; no-donor (no donor at all; one donor that can serve only two of three needy clusters), joint-style input (list, tuple, iterator, deque of arrays) to ticc_labels, array to ticc_joint_labels x {default, P=K}. "
         "Each scenario in its own fresh process with a 60 s watchdog: expected exception type and message, no "
         "result, no live children while the exception is referenced, clean follow-up call bitwise equal to the "
         "clean reference. non-trivial = scenarios whose fault point was reached")
